@@ -21,6 +21,7 @@ CONSTANTS
   Faults = {}
   AdvMsgs = {}
   MaxAdv = 0
+  Bridgers = {}
   MaxHandles = 1
   MaxCtr = 4
 VIEW View
